@@ -88,10 +88,13 @@ INFO = {
 }
 
 # round 2 (s3..s5): descriptions derived from each patch and its demo
+NOT_CAUGHT = {}
 for _f in ("seedinfo_round2.json", "seedinfo_round3.json"):
     if (ROOT / "tools" / _f).exists():
         for _k, _v in json.loads((ROOT / "tools" / _f).read_text()).items():
             INFO[_k] = (_v["what"], _v["needs"])
+            if _v.get("not_caught_reason"):
+                NOT_CAUGHT[_k] = _v["not_caught_reason"]
 
 
 def main():
@@ -108,6 +111,10 @@ def main():
         facets = sorted({v.split("violation in ")[1].split(":")[0] for v in chk["violations"] if "violation in " in v})
         valid = (m["demo_clean_exit"] == 0 and m["demo_patched_exit"] != 0 and not m.get("suite", {}).get("newly_failing"))
         caught = "caught" if m["detected"] else "MISSED"
+        if not m["detected"] and d.name in NOT_CAUGHT:
+            caught = "not caught (by decision, see note)"
+            m["not_caught_reason"] = NOT_CAUGHT[d.name]
+            mp.write_text(json.dumps(m, indent=1) + "\n")
         if m["detected"] and m.get("first_run_missed"):
             caught = "caught after strengthening"
         rows.append((d.name, m["property"], "yes" if valid else "NO", caught,
